@@ -208,7 +208,8 @@ inExpr.setParseAction(InExpr)
 
 matchExpr = eqExpr | regexExpr | inExpr | notInExpr
 
-booleanOp = l("and") | l("or")
+# Keywords: `x = "a" order = "b"` is not `x = "a" or der = "b"`
+booleanOp = pp.Keyword("and") | pp.Keyword("or")
 logicExpr = (
     matchExpr + pp.ZeroOrMore((booleanOp + matchExpr).setParseAction(LogicExpr))
 ).setParseAction(LogicExpr.summary)
